@@ -681,7 +681,16 @@ fn stage3(ctx: &Ctx, rep: &mut Report) -> Result<(), String> {
         if tape.chance(1, 4) {
             st.program.build_commit = "a\"b\\c\nd".to_string();
         }
-        let bytes = serde_json::to_vec(&st).unwrap();
+        let mut bytes = serde_json::to_vec(&st).unwrap();
+        if tape.chance(1, 3) {
+            // a state generated field by field over the full ranges instead of one a node can be in
+            let js = gen_json_state(&mut tape);
+            if let Ok(parsed) = serde_json::from_str::<ObservableState>(&js) {
+                st = parsed;
+                bytes = js.into_bytes();
+                out.label("generated-json-state");
+            }
+        }
         if tape.chance(1, 5) {
             // an earlier scrape of some other state that the client aborted while the exporter was working on it
             aborted_scrape(&exp, crate::c20::valid_payload(), 24);
@@ -747,7 +756,7 @@ pub fn run(ctx: &Ctx) -> i32 {
         Finish {
             ctx,
             level: "exploration",
-            rule: "instance states reached in simulation (grandmaster, slave with generated parent contents, boundary clock with 1-3 ports, Faulty P2P ports, measured link delays, path traces of 0..128 identities, every time-properties combination, filter estimates from 0 to +-10 s incl. values whose fixed-point bits exceed 64 bits, random configurations) plus directly generated observable-state JSON over the full field ranges. Stage 1: the ObservableInstanceState assembled as run() does must agree with the configuration, with the Announce a master port emits (independent view of parent/current/time-properties/path-trace data sets), with the port's behaviour and with the slave port's filter estimates. Stage 2: serde_json round trip is byte-identical and field-equal. Stage 3: the exporter binary built from /repo is given the JSON over a Unix socket; the HTTP response must be 200 with matching Content-Length, well-formed exposition format (# EOF last, metadata before contiguous samples, unit suffix), and every sample must equal the value derived from the state under the meaning its metadata states (true = 1, nanoseconds where the unit says nanoseconds). Stage 4 (part daemon): the real statime daemon as a two-port boundary clock in a private network namespace; the harness, as the parent, changes what it announces (every content field and flag, always better than the daemon's own data set); after four announce intervals the daemon's observation socket must show exactly that hierarchy, the configured defaultDS and the port states, and the exporter binary reading the same socket must serve that state. Non-trivial = state other than the start-up state; distinct by JSON.",
+            rule: "instance states reached in simulation (grandmaster, slave with generated parent contents, boundary clock with 1-3 ports, Faulty P2P ports, measured link delays, path traces of 0..128 identities, every time-properties combination, filter estimates from 0 to +-10 s incl. values whose fixed-point bits exceed 64 bits, random configurations) plus directly generated observable-state JSON over the full field ranges. Stage 1: the ObservableInstanceState assembled as run() does must agree with the configuration, with the Announce a master port emits (independent view of parent/current/time-properties/path-trace data sets), with the port's behaviour and with the slave port's filter estimates. Stage 2: serde_json round trip is byte-identical and field-equal. Stage 3: the exporter binary built from /repo is given the JSON over a Unix socket (in a third of the cases a state generated field by field over the full ranges instead of one a node can be in); the HTTP response must be 200 with matching Content-Length, well-formed exposition format (# EOF last, metadata before contiguous samples, unit suffix), and every sample must equal the value derived from the state under the meaning its metadata states (true = 1, nanoseconds where the unit says nanoseconds). Stage 4 (part daemon): the real statime daemon as a two-port boundary clock in a private network namespace; the harness, as the parent, changes what it announces (every content field and flag, always better than the daemon's own data set); after four announce intervals the daemon's observation socket must show exactly that hierarchy, the configured defaultDS and the port states, and the exporter binary reading the same socket must serve that state. Non-trivial = state other than the start-up state; distinct by JSON.",
             assumptions: vec!["stage 3 uses loopback sockets with wall-clock time-outs; a time-out is exit 2, never a violation".into(), "float comparison at relative 1e-9".into()],
             min_nontrivial: 100,
         },
